@@ -99,6 +99,15 @@ def cases(rng, tier):
                 if th or k % 4 == 0: add_rat(f, g, tg + '/rational', 'release' if k % 3 == 0 else 'debug')
 
     # --- random dense
+    # coefficients at the machine-word boundaries (+-2^31, 2^32, 2^63, 2^64, 2^127 and neighbours), degrees 1..3, both profiles
+    edge = [s_ * (2 ** e_ + d_) for e_ in (31, 32, 63, 64, 127) for d_ in (-1, 0, 1) for s_ in (1, -1)]
+    for _ in range(40 if not th else 400):
+        f = [rng.choice(edge) if rng.random() < 0.6 else rng.randrange(-3, 4) for _ in range(rng.randrange(2, 5))]
+        g = [rng.choice(edge) if rng.random() < 0.6 else rng.randrange(-3, 4) for _ in range(rng.randrange(2, 4))]
+        if f[-1] == 0: f[-1] = 1
+        if g[-1] == 0: g[-1] = -1
+        for prof in ('debug', 'release'): add_int(f, g, 'word-boundary-coefficients', prof)
+
     for _ in range(150 if not th else 2000):
         df = rng.randrange(0, 13); dg = rng.randrange(0, 13)
         bits = rng.choice([2, 8, 32, 64])
